@@ -17,7 +17,10 @@
 EXTENDS Integers, Sequences
 
 Unary  == [neg |-> "NEG", not |-> "NOT"]
-Binary == [add |-> "ADD", sub |-> "SUB", eq |-> "EQ", ne |-> "NE", le |-> "LE", lt |-> "LT",
+(* iadd / isub / iand / ior: the augmented assignments  t += x,  t -= x,  t &= x,  t |= x  applied to an expression  *)
+(* object (they MEAN the same as the binary operators; the object they are applied to must not change);              *)
+(* iconst / bconst: an explicit constant node IntExpr(INT_CONSTANT, [n]) / BoolExpr(BOOL_CONSTANT, [b])              *)
+Binary == [iadd |-> "ADD", isub |-> "SUB", iand |-> "AND", ior |-> "OR", add |-> "ADD", sub |-> "SUB", eq |-> "EQ", ne |-> "NE", le |-> "LE", lt |-> "LT",
            ge |-> "GE", gt |-> "GT", and |-> "AND", or |-> "OR", xor |-> "XOR", iff |-> "IFF",
            bne |-> "XOR", then |-> "IMP", thenf |-> "IMP"]
 Helper == [count_true |-> "COUNT", fold_or |-> "OR", fold_and |-> "AND",
@@ -35,6 +38,8 @@ Sem(d) ==
     CASE d.f = "var"  -> [op |-> "VAR", id |-> d.id]
       [] d.f = "ilit" -> [op |-> "INT", val |-> d.n]
       [] d.f = "blit" -> [op |-> "BOOL", val |-> d.b]
+      [] d.f = "iconst" -> [op |-> "INT", val |-> d.n]
+      [] d.f = "bconst" -> [op |-> "BOOL", val |-> d.b]
       [] d.f \in DOMAIN Unary  -> [op |-> Unary[d.f], args |-> <<Sem(d.args[1])>>]
       [] d.f \in DOMAIN Binary ->
             [op |-> Binary[d.f], args |-> <<Sem(d.args[1]), Sem(d.args[2])>>]
